@@ -1,7 +1,7 @@
 """C17 -- implicit defaults never override explicit config and never cause commands alone (structural clauses)."""
 import ast
 
-from sa import dsl, guards as G
+from sa import dsl, guards as G, rxsample
 from sa.flow import GuardMap, Provenance
 from sa.hwdb import HwDb
 from sa.pytexts import accumulate_paths
@@ -22,6 +22,7 @@ def run(c):
     r3(c)
     r4(c)
     r5(c)
+    r6(c)
 
 
 def r1(c):
@@ -272,3 +273,60 @@ def r5(c):
             miss.append("(whole device handed to a helper)")
         c.check("C17.R5", not miss, repo.loc(m, k), "compile_rules/memo-key", f"compiled implicit rules are memoised under `{norm(kk)[:50]}`, but _implicit_tree also reads device.{', device.'.join(miss)}: "
                 "two devices that agree on the key and differ there (same model, another role tag) share one rule set — the second gets defaults that are not its own", key_text="memo-key")
+
+
+def _shape(r):
+    return (r.type, r.row, tuple(_shape(ch) for ch in r.children if ch.type in ("normal", "ignore")))
+
+
+def r6(c):
+    repo = c.repo
+    c.rule("C17.R6", "implicit.config stores one completed subtree per matching line (`tree[line] = config(...)`, last writer wins), so two sibling rules of one default text "
+                     "that can match the same line must bring the same nested defaults: for every pair of sibling rows, either no line matches both row patterns (witness search "
+                     "over samples of both regular expressions, confirmed with the specification regex of the row language) or their children are identical")
+    m = repo.module(IMPLICIT)
+    fn = repo.func(IMPLICIT, "_implicit_tree")
+    cf = repo.func(IMPLICIT, "config")
+    ro = _config_roles(cf)
+    merging = [s_ for s_ in ro["rec"] if any(isinstance(x, ast.Name) and x.id == ro["result"] for x in ast.walk(ro["pv"].resolve_alias(s_.value)))]
+    if ro["rec"] and len(merging) == len(ro["rec"]):
+        c.holds("C17.R6", repo.loc(m, cf), "_implicit_tree/sibling-rules", "implicit.config combines the completion with what an earlier rule stored under the same line: overlapping sibling rules are harmless", trivial=True)
+        return
+    seen = set()
+    pairs = 0
+    for p in accumulate_paths(fn, "text"):
+        for node, t in p.parts:
+            if id(node) in seen:
+                continue
+            seen.add(id(node))
+            lines, _ = dsl.read_lines(t, mako=False)
+            roots, _ = dsl.build_tree(lines)
+
+            def level(sibs, where):
+                nonlocal pairs
+                sibs = [r for r in sibs if r.type in ("normal", "ignore")]
+                comp = []
+                for r in sibs:
+                    if dsl.row_regex_error(r.row) is None:
+                        comp.append((r,) + dsl.spec_compile(r.row))
+                for i in range(len(comp)):
+                    for j in range(i + 1, len(comp)):
+                        a, pa, fa = comp[i]
+                        b, pb, fb = comp[j]
+                        pairs += 1
+                        ka, kb = _shape(a)[2], _shape(b)[2]
+                        if ka == kb and (a.type == b.type or not ka):
+                            continue
+                        w = rxsample.overlap(pa, fa, pb, fb)
+                        if w is not None:
+                            c.violated("C17.R6", f"{m.rel}:{node.lineno + b.line.no - 1}", f"_implicit_tree{where}:`{a.row}` / `{b.row}`",
+                                       f"sibling default rules `{a.row}` and `{b.row}` both match the line `{w}` but bring different nested defaults "
+                                       f"({[x[1] for x in ka]} vs {[x[1] for x in kb]}): implicit.config assigns tree[line] once per rule, the later rule's completion replaces the "
+                                       "earlier one's, so a default of the earlier rule is never applied under that line (and its explicit children are dropped from the completion)",
+                                       key_text=f"{a.row}|{b.row}")
+                for r in sibs:
+                    if r.children:
+                        level(r.children, where + "/" + r.row)
+            level(roots, "")
+    c.floor("C17.R6", "sibling rule pairs compared", pairs, 40)
+    c.holds("C17.R6", repo.loc(m, fn), "_implicit_tree/sibling-rules", f"{pairs} sibling pairs over {len(seen)} default texts: no pair with different nested defaults shares a matching line")
